@@ -194,4 +194,4 @@ def reconstruct(D):
 
 
 def error_codes_text(D):
-    return "".join(f"{val} {name.upper()} {ret} msg\n" for name, val, ret in D["errors"])
+    return "".join(f"{e[1]} {e[0].upper()} {e[2]} {(e[3] if len(e) > 3 and e[3] else 'msg')}\n" for e in D["errors"])
